@@ -2,7 +2,7 @@
     the per-axis snap_grid theorems (property C08). *)
 From Coq Require Import ZArith QArith Qround Qabs List Bool Lia Lqa.
 From OG Require Import Base.Result Base.QZ Model.Roi Model.MathH Model.FromBbox
-  Proofs.MathHBasics Proofs.MathHSnap Proofs.MathHScale.
+  Proofs.MathHBasics Proofs.MathHSnap Proofs.MathHSnapMin Proofs.MathHScale.
 Import ListNotations.
 Open Scope Q_scope.
 
@@ -143,6 +143,58 @@ Proof.
   exists nx, ny, offx, offy. eexists. split; [reflexivity|].
   split; [|split; assumption].
   unfold aff_eq, aff_mul, aff_translation, aff_scale; cbn [aa ab ac ad ae af]. repeat split; ring.
+Qed.
+
+(** minimal pixel count per axis (0 <= tol <= 1/2) *)
+Definition axis_minimal (x0 x1 rs : Q) (o : option Q) (tol tx : Q) (n : Z) : Prop :=
+  match o with
+  | Some _ =>
+      x0 + tol * Qabs rs <= grid_lo rs tx n + Qabs rs /\
+      ((2 <= n)%Z -> grid_lo rs tx n + inject_Z n * Qabs rs - Qabs rs <= x1 - tol * Qabs rs)
+  | None => (2 <= n)%Z -> (inject_Z n - 1) * Qabs rs <= x1 - x0 - tol * Qabs rs
+  end.
+
+Lemma snap_grid_axis_minimal x0 x1 rs o tol tx n : ~ rs == 0 -> 0 <= tol -> tol <= 1 # 2 ->
+  snap_grid x0 x1 rs o tol = Ok (tx, n) -> axis_minimal x0 x1 rs o tol tx n.
+Proof.
+  intros Hr Ht Hh H. unfold axis_minimal, grid_lo. destruct o as [o|].
+  - exact (snap_grid_some_min _ _ _ _ _ _ _ Hr Ht Hh H).
+  - exact (snap_grid_none_min _ _ _ _ _ _ Hr Ht Hh H).
+Qed.
+
+Lemma axis_minimal_comp x0 x1 rs o tol tx tx' n : tx == tx' ->
+  axis_minimal x0 x1 rs o tol tx n -> axis_minimal x0 x1 rs o tol tx' n.
+Proof.
+  intros E. unfold axis_minimal, grid_lo. destruct o; [|auto].
+  destruct (Qltb 0 rs); rewrite E; auto.
+Qed.
+
+Lemma from_bbox_resolution_minimal b tight shape rr anchor tol ny nx A :
+  not_scalar shape -> ~ fst (res_xy rr) == 0 -> ~ snd (res_xy rr) == 0 -> 0 <= tol -> tol <= 1 # 2 ->
+  from_bbox b tight shape (Some rr) anchor tol = Ok ((ny, nx), A) ->
+  axis_minimal (bl b) (br b) (fst (res_xy rr)) (option_map fst (snap_of tight anchor)) tol (ac A) nx /\
+  axis_minimal (bb b) (bt b) (snd (res_xy rr)) (option_map snd (snap_of tight anchor)) tol (af A) ny.
+Proof.
+  intros Hs Hrx Hry Ht Hh. unfold from_bbox.
+  assert (E : (match shape with
+               | ShScalar n =>
+                   if Qeq_bool (span_y b) 0 then Err EZeroDiv
+                   else if Qeq_bool n 0 then Err EZeroDiv
+                   else if Qltb 1 (span_x b / span_y b) then Ok (Some (RScalar (span_x b / n)), ShNone)
+                   else Ok (Some (RScalar (span_y b / n)), ShNone)
+               | _ => Ok (Some rr, shape)
+               end) = Ok (Some rr, shape)) by (destruct shape; [reflexivity | contradiction | reflexivity]).
+  rewrite E. cbn [bind].
+  destruct (res_xy rr) as [rx ry]. cbn [fst snd] in *.
+  destruct (snap_grid (bl b) (br b) rx (option_map fst (snap_of tight anchor)) tol) as [[offx nx']|] eqn:Ex; [|discriminate].
+  cbn [bind].
+  destruct (snap_grid (bb b) (bt b) ry (option_map snd (snap_of tight anchor)) tol) as [[offy ny']|] eqn:Ey; [|discriminate].
+  cbn [bind]. intros H. injection H as <- <- <-.
+  split.
+  - apply (axis_minimal_comp _ _ _ _ _ offx); [|exact (snap_grid_axis_minimal _ _ _ _ _ _ _ Hrx Ht Hh Ex)].
+    unfold aff_mul, aff_translation, aff_scale; cbn [aa ab ac ad ae af]. ring.
+  - apply (axis_minimal_comp _ _ _ _ _ offy); [|exact (snap_grid_axis_minimal _ _ _ _ _ _ _ Hry Ht Hh Ey)].
+    unfold aff_mul, aff_translation, aff_scale; cbn [aa ab ac ad ae af]. ring.
 Qed.
 
 (** ** shape-driven construction *)
